@@ -513,6 +513,11 @@ func (in *interp) service(s *Service) {
 				}
 			})
 		}
+		for _, f := range s.Files {
+			if len(f) == 2 {
+				dsl.Files(f[0], f[1])
+			}
+		}
 		metas(s.Meta)
 		in.raw("service:" + s.Name)
 		for _, m := range s.Methods {
